@@ -83,8 +83,15 @@ def apply(cfg, order, history=False, reuse=False, late=False, via_info=False, cu
         # the seed table is completed after the updater was built, through the live table the updater hands out:
         # at update time the configured seed lists are the same as in the base variant
         keys = list(cfg["table"])
-        up = StreamSeedUpdater({k: list(cfg["table"][k][:1]) for k in keys[:len(keys) // 2]})
-        live = up.get_stream_seeds()
+        if isinstance(cfg["r"], int) and not isinstance(cfg["r"], bool) and cfg["r"] % 2 == 0:
+            # ... or through the caller's own reference to the (still empty) dict the updater was built from, the way
+            # StreamSeedUpdater(info.get_seeds()) is used with a seed information object that is configured afterwards
+            own = {}
+            up = StreamSeedUpdater(own)
+            live = own
+        else:
+            up = StreamSeedUpdater({k: list(cfg["table"][k][:1]) for k in keys[:len(keys) // 2]})
+            live = up.get_stream_seeds()
         for k in keys:
             if k in live:
                 live[k].extend(cfg["table"][k][1:])
